@@ -19,4 +19,23 @@ def spaceInvB (x : Space) (I : List ImpEntry) (sp : Sp) : Bool :=
 
 def stInvB (s : St) : Bool := spaceInvB s.f s.imports .F && spaceInvB s.g s.imports .G && spaceInvB s.m s.imports .M
 
+/-! the shape `Module::parse` gives a vector: imported entities of the kind in import-section order, then the local ones -/
+
+/-- entries (imported?, uid, position of the import entry) numbered from `k` -/
+def mkItems : Nat → List (Bool × Nat × Nat) → List Item
+  | _, [] => []
+  | k, q :: rest => { id := k, imp := q.1, del := false, uid := q.2.1, impId := q.2.2 } :: mkItems (k + 1) rest
+
+def parsedItems (I : List ImpEntry) (sp : Sp) (locals : List Nat) : List Item :=
+  mkItems 0 ((liveEntriesB I sp).map (fun p => (true, p.2, p.1)) ++ locals.map (fun u => (false, u, 0)))
+
+/-- the vector has the shape the parser builds (checked by the driver on the initial state of every case) -/
+def parsedShapeB (x : Space) (I : List ImpEntry) (sp : Sp) : Bool :=
+  (x.items == parsedItems I sp ((x.items.filter (fun (it : Item) => !it.imp)).map (fun (it : Item) => it.uid)))
+    && !x.recalc && x.numImp == (liveEntriesB I sp).length && x.numImpAdded == 0
+
+def parsedStateB (s : St) : Bool :=
+  parsedShapeB s.f s.imports .F && parsedShapeB s.g s.imports .G && parsedShapeB s.m s.imports .M
+    && s.imports.all (fun (e : ImpEntry) => !e.del)
+
 end Orca.Edit
